@@ -115,9 +115,11 @@ def install_loop_rule(sess, fname, obprefix):
             it.assign(stmt.target, view.bind(enum.keys(i)) if view is not None else SInt(enum.keys(i)), fr)
             from pyvc.interp import BreakSig, ContinueSig
             try:
-                it.exec_block(stmt.body, fr)
-            except (BreakSig, ContinueSig):
-                raise Unsupported('break/continue in a key loop')
+                it.exec_loop_body(stmt.body, fr)
+            except ContinueSig:
+                pass          # `continue` ends the step like falling off the end of the body
+            except BreakSig:
+                raise Unsupported('break in a key loop')
             for cname, f in TP.inv_append_all(entry, st.snap(), i + 1, enum, t, n):
                 ctx.oblige('%s/loop.inv.preserve.%s' % (obprefix, cname), f, kind='invariant')
             raise pathsmod.PathCut('inductive step done')
@@ -361,7 +363,7 @@ def verify_feed_generator(run, tier, sess):
         sink = it.lookup('$yield', fr)
         before = len(sink.items)
         it.assign(stmt.target, x, fr)
-        it.exec_block(stmt.body, fr)
+        it.exec_loop_body(stmt.body, fr)
         state['step'] = (x, list(sink.items[before:]))
         raise pathsmod.PathCut('one step')
     it.symloop_hook = hook
